@@ -44,7 +44,7 @@ def precheck(case):
 
 
 def budget(tier):
-    return 5000 if tier == "quick" else 40000
+    return 7000 if tier == "quick" else 50000
 
 
 @st.composite
